@@ -45,6 +45,8 @@ def pool(r):
         ('oe', p.obj([['b', interp.vflt(1)], ['a', interp.vflt(2)]])), ('of', p.obj([['b', interp.vflt(2)], ['a', interp.vflt(1)]])),
         # a datetime with a sub-millisecond part (datetime - datetime is the WHOLE-millisecond difference)
         ('d4', ['date', str(63_842_000_000_000_400)]),
+        # exactly half a millisecond above d1 (the difference rounds half AWAY from zero: 1, not 0)
+        ('d5', ['date', str(63_842_000_000_000_500)]), ('d6', ['date', str(63_842_000_000_002_500)]),
         # strings are ordered by CODE POINT: a character of U+E000..U+FFFF sorts below an astral one (UTF-16 code units would say the opposite)
         ('sbmp', ['str', 'x\uff21']), ('sastral', ['str', 'x\U0001f600']),
     ]
